@@ -15,7 +15,7 @@ from simkit.decide import KeyRnd, mix
 
 PROPERTY = "C11"
 LEVEL = "exploration"
-RUNS = {"quick": 1500, "thorough": 80000}
+RUNS = {"quick": 3000, "thorough": 80000}
 BUDGET = {"quick": 80, "thorough": 3000}
 USES_AIOCOAP_NET = False
 RULE = ("seeded scenarios: one pair of matching contexts (every non-group AEAD algorithm, sender/recipient ID lengths "
